@@ -6,9 +6,9 @@ CONSTANTS
   N2 = 0
   L1 = 0
   L2 = 0
-  MaxArgs = 2
+  MaxArgs = 3
   Fns = {"chars", "glue", "rule", "disc", "lig", "hbox", "insertion", "math", "mark", "kern", "penalty", "vbox", "adjust"}
-  Rich = TRUE
+  Rich = FALSE
   TextLen = 0
   Chars = {}
   IntParts = {}
